@@ -47,18 +47,23 @@ RULE = (
     "invalid regexes, arguments beginning with '-', NUL / newline inside an argument, non-UTF-8 files."
 )
 LEVEL_TEXT = (
-    "Theorems (Lean 4, all texts, subnet lists, options and oracle functions): word mode prints words.filterMap of "
-    "'valid, inside at least one requested subnet, not excluded -> its rendering' (ipgrep_filter), hence a subsequence of the "
-    "renderings of the input words in input order, one line per occurrence (ipgrep_sublist), independent of order and multiplicity of the "
-    "requested subnets (ipgrep_subnets_irrelevant; the code keeps them in a Python set); --unique prints exactly the first occurrences of "
-    "that output (ipgrep_unique: duplicate free, same members, firstOccs); the rendering is address / CIDR address / network as the options "
-    "say and the unique key is that rendering (render_spec, uniqueKey_eq_render); containment is IPVal's contains (C12: subnet containment); "
-    "line mode prints, in order and once, exactly the lines that have a hit and no excluded hit (ipgrep_line_filter; without --exclude-hosts: "
-    "exactly the lines with a contained word, ipgrep_line_filter_plain); macgrep word mode = words.filter (is MAC/EUI-64 and some regex finds "
-    "some spelling), unique = first occurrences, line mode = lines.filter (macgrep_filter, macgrep_unique, macgrep_line_filter); the four "
-    "sub-commands print exactly the API result for the arguments the code passes (cli_is_api_parent/child/branch_raw/branch_original/diff), "
-    "with the defect that `diff` does not pass -s stated as a theorem (diff_ignores_syntax). "
-    "The model is tied to cli_script.py by differential runs of the real ccp_script_entry on every check."
+    "Theorems (Lean 4, for all texts, subnet lists, option values and all oracle functions re.split / IPv4Obj / IPv6Obj / address text / "
+    "re.search / API): word mode prints words.filterMap of 'valid address, inside at least one requested subnet of its family, not excluded "
+    "-> its rendering' (ipgrep_filter, wordOut_spec), hence a subsequence of the input words in input order with one line per kept occurrence "
+    "(ipgrep_sublist), independent of order and multiplicity of the requested subnets, which the code keeps in a Python set "
+    "(ipgrep_subnets_irrelevant); --unique prints exactly the first occurrences of that output (ipgrep_unique; firstOccs_spec: duplicate free, "
+    "same members, subsequence, = List.eraseDups); the rendering is address / CIDR address / network as requested and the unique key is the "
+    "printed text (render_spec, uniqueKey_eq_render); --exclude-hosts drops host routes and, unless networks are shown, addresses with host "
+    "bits (hostExcluded_spec); `addr in subnet` is C12's subnet containment (hit_is_containment); line mode prints in order and once exactly the "
+    "lines with a kept hit and no excluded hit (ipgrep_line_filter; without --exclude-hosts exactly the lines having a contained word, "
+    "ipgrep_line_filter_plain); option plumbing -4/-6/-s, word vs line mode (ipgrep_subnet_options, ipgrep_word_mode, ipgrep_line_mode); "
+    "macgrep word mode = words.filter(is MAC/EUI-64 in any spelling (C16's constructors, macgrep_word_is_mac) and some regex finds one of the "
+    "spellings dash/colon/cisco/bare), --unique = first occurrences by spelling, line mode = lines.filter (macgrep_filter, macgrep_unique, "
+    "macgrep_line_filter, macWordMatches_iff, macgrep_modes); parent/child/branch/diff print exactly the API result for the arguments the code "
+    "passes: CiscoConfParse(config=file, syntax=-s).find_parent_objects/find_child_objects/find_object_branches(args.split(delimiter)) file after "
+    "file, Diff(read(f0), read(f1)).get_diff()/get_rollback() by -m (cli_is_api_parent, cli_is_api_child, cli_is_api_branch_raw, "
+    "cli_is_api_branch_original, sortLines_spec, cli_is_api_diff); that `diff` never passes -s is itself a theorem about the code as written "
+    "(diff_ignores_syntax, known finding F48). The model is tied to cli_script.py by differential runs of the real ccp_script_entry on every check."
 )
 LEVEL_NOTE = (
     "Trusted: Lean kernel; axioms propext/Classical.choice/Quot.sound only; the correspondence harness. Modelled, not verified: argparse "
